@@ -909,13 +909,13 @@ class t2grid(object):
             geo.setup_block_connection_name_index()
             return geo
 
-        def match_position(geo, grid, ob):
+        def match_position(geo, grid, ob, max_volume):
             """Rotate and translate geometry as needed."""
-            blks, sp = block_direction_track(grid, ob, 1)
+            blks, sp = block_direction_track(grid, ob, 1, max_volume)
             if len(blks) > 1:
                 angle =  0.5 * np.pi - vector_heading(blks[-1].centre[0:2] - ob.centre[:2])
             else: # only one block along direction 1: use direction 2
-                blks, sp = block_direction_track(grid, ob, 2)
+                blks, sp = block_direction_track(grid, ob, 2, max_volume)
                 angle = -vector_heading(blks[-1].centre[0:2] - ob.centre[:2])
             from math import degrees
             angle = degrees(angle)
@@ -981,7 +981,7 @@ class t2grid(object):
                                             justify = justify, chars = chars, spaces = spaces,
                                             block_order = block_order)
                 blockmap = block_mapping(geo, self, ob, nblks, atmos_volume)
-                geo = match_position(geo, self, ob)
+                geo = match_position(geo, self, ob, atmos_volume)
                 geo = find_surface(geo, self, blockmap, remove_inactive, atmos_volume)
                 geo.snap_columns_to_layers(layer_snap)
                 prune = list(set(blockmap.keys()) - set(geo.block_name_list))
